@@ -349,7 +349,7 @@ class Report:
 
 # Modules that hold only proof obligations about numbers/shapes extracted from the source (T1). The driver does not
 # import them, so a source change that breaks one of them breaks only the property that owns it.
-OBLIGATION_MODULES = {"VersionThm": "C15", "ArgsGen": "C11", "Limits": "C12"}
+OBLIGATION_MODULES = {"VersionThm": "C15", "ArgsGen": "C11", "Limits": "C12", "DetGen": "C13"}
 
 
 def lean_modules(pid):
@@ -366,7 +366,7 @@ def lean_modules(pid):
     return sorted(mods)
 
 
-def lean_gate(report, theorems, uses_tables=False, uses_args=False):
+def lean_gate(report, theorems, uses_tables=False, uses_args=False, uses_det=False):
     """Common proof gate: regenerate tables from the source (T1), forbid sorry etc., lake build, audit axioms.
     Returns True if the proof side is intact. Records violations (no-failing-input-found) otherwise."""
     import extract_tables
@@ -389,6 +389,17 @@ def lean_gate(report, theorems, uses_tables=False, uses_args=False):
         report.coverage["arg_consts_regenerated_from_source"] = False
         if uses_args:
             report.violation("extract-args", {"broken": "T1 extraction from main.cpp/ErrorCheckClasses.cpp/GdlGlyphClassDefn.cpp failed: %s" % e},
+                             no_failing_input=True)
+    import extract_det
+    try:
+        with Lock(os.path.join(SCRATCH_ROOT, ".lake.lock")):
+            report.det_consts = extract_det.main()
+        report.coverage["det_consts_regenerated_from_source"] = True
+    except extract_tables.ExtractError as e:
+        report.det_consts = None
+        report.coverage["det_consts_regenerated_from_source"] = False
+        if uses_det:
+            report.violation("extract-det", {"broken": "T1 extraction of the pointer-keyed containers from compiler/*.h,*.cpp failed: %s" % e},
                              no_failing_input=True)
     hits = lean_grep_forbidden()
     mods = lean_modules(report.pid)
